@@ -12,6 +12,19 @@ Theorem C14_tie_is_aggregator : forall (len target : N) (hash : list N),
 Proof. exact tie_is_aggregator. Qed.
 Print Assumptions C14_tie_is_aggregator.
 
+(* the two slot filters: the submission goroutine of Subscribe keeps exactly the slots the model's
+   to_submit keeps ([cur <? s_slot e]); AttestAndScheduleAggregate skips exactly the attestations
+   attest_step skips as being in the past ([a_slot a <? cur]) *)
+Theorem C14_tie_subscription_future_slots_only : forall (cur slot : N),
+  (cur <? slot)%N = negb (subscriber_notFutureSlot (Z.of_N slot) (Z.of_N cur)).
+Proof. exact tie_future_slot. Qed.
+Print Assumptions C14_tie_subscription_future_slots_only.
+
+Theorem C14_tie_aggregation_in_past : forall (cur aslot : N),
+  (aslot <? cur)%N = controller_aggregationInPast (Z.of_N cur) (Z.of_N aslot).
+Proof. exact tie_aggregation_in_past. Qed.
+Print Assumptions C14_tie_aggregation_in_past.
+
 Example C14_tie_example :
   aggregator_isAggregator 16 128 24 = true /\ aggregator_isAggregator 16 128 25 = false /\ aggregator_isAggregator 16 10 7 = true.
 Proof. vm_compute. repeat split. Qed.
